@@ -346,6 +346,26 @@ def _auto_discharge(cg: CG, s: RaiseSite) -> Optional[str]:
         return None
     if s.kind == "int" and isinstance(n, ast.Call):
         return _int_regex_shape(cg, s)
+    if s.kind == "cast" and isinstance(n, ast.Call) and len(n.args) == 2:
+        m = cg.model
+        mod = m.mods[s.unit.fn.rel]
+        want = m.resolve_expr_static(mod, n.args[0])
+        for t, truth in facts_at(n, fn):
+            def _same_value(x: ast.AST, y: ast.AST) -> bool:
+                if same(x, y):
+                    return True
+                # a local holding the same (repeated) expression:  scope = self.scope_stack[-1]; isinstance(scope, C); cast(C, self.scope_stack[-1])
+                if isinstance(x, ast.Name):
+                    vals = [a_.value for a_ in ast.walk(fn) if isinstance(a_, (ast.Assign, ast.AnnAssign)) and a_.value is not None and any(isinstance(t_, ast.Name) and t_.id == x.id for t_ in (a_.targets if isinstance(a_, ast.Assign) else [a_.target]))]
+                    return len(vals) == 1 and same(vals[0], y)
+                return False
+
+            if truth and isinstance(t, ast.Call) and isinstance(t.func, ast.Name) and t.func.id == "isinstance" and len(t.args) == 2 and _same_value(t.args[0], n.args[1]):
+                ks = t.args[1].elts if isinstance(t.args[1], ast.Tuple) else [t.args[1]]
+                got = [m.resolve_expr_static(mod, k) for k in ks if isinstance(k, (ast.Name, ast.Attribute))]
+                if got and all(isinstance(g, ClassInfo) and isinstance(want, ClassInfo) and m.is_subclass(g, want) for g in got):
+                    return "dominating isinstance test of the cast operand"
+        return None
     return None
 
 
@@ -509,6 +529,29 @@ def _tainted(s: RaiseSite) -> bool:
         return True
     if s.kind in ("div", "subscript", "int") and (fn.name.startswith("p_") or fn.name.startswith("t_")):
         return True
+    if s.kind == "cast":
+        return True  # the operand is an AST object built from the schema
+    if s.kind == "subscript" and isinstance(s.node, ast.Subscript) and s.unit.fn.cls is None:
+        # module-level helper: an index into something derived from its own parameter
+        # (iteration / assignment / str methods) is controlled by the caller's data
+        params = {a.arg for a in fn.args.args}
+        tainted = set(params)
+        for _ in range(4):
+            for n in ast.walk(fn):
+                src_names: set = set()
+                tg: list = []
+                if isinstance(n, (ast.Assign, ast.AnnAssign)) and n.value is not None:
+                    src_names = {x.id for x in ast.walk(n.value) if isinstance(x, ast.Name)}
+                    tg = n.targets if isinstance(n, ast.Assign) else [n.target]
+                elif isinstance(n, (ast.For, ast.comprehension)):
+                    src_names = {x.id for x in ast.walk(n.iter) if isinstance(x, ast.Name)}
+                    tg = [n.target]
+                if src_names & tainted:
+                    for t in tg:
+                        tainted |= {x.id for x in ast.walk(t) if isinstance(x, ast.Name)}
+        base_names = {x.id for x in ast.walk(s.node.value) if isinstance(x, ast.Name)}
+        if base_names & tainted:
+            return True
     return False
 
 
@@ -597,6 +640,7 @@ def a1(repo: Repo) -> RuleResult:
                     "div": "a zero divisor written in the schema",
                     "subscript": "an empty collection / out-of-range index the grammar permits",
                     "int": "token text the regex admits but int() rejects",
+                    "cast": "a schema in which the value has another class than the cast claims",
                     "raise": "the condition depends on schema contents only",
                 }.get(s.kind, "operand is controlled by the schema text")
                 if s.exc == "NotImplementedError":
